@@ -19,7 +19,7 @@ H = {
     "amount_to_scalar_total": dict(crate="zkabacus-crypto", what="PaymentAmount::to_scalar never panics or wraps, for all i64 (including i64::MIN, decodable from the wire)", functions=["za.PaymentAmount::to_scalar"],
                                    native="let v = i64::from_le_bytes({V0});\n        let a: crate::PaymentAmount = bincode_free_amount(v);\n        let _ = a.to_scalar();"),
     "balance_to_scalar_total": dict(crate="zkabacus-crypto", what="Balance::to_scalar total for all u64", functions=["za.Balance::to_scalar"]),
-    "balance_decode_invariant": dict(crate="zkabacus-crypto", features="bincode", what="no byte string decodes to a CustomerBalance/MerchantBalance above 2^63-1 (real serde derive + real bincode)", functions=["serde derive Deserialize for Balance"]),
+    "balance_decode_invariant": dict(crate="zkabacus-crypto", what="decoding a CustomerBalance/MerchantBalance from any u64 wire value succeeds iff value <= 2^63-1 and is lossless (real serde derive of the three newtypes; all u64)", functions=["serde derive Deserialize for Balance"]),
     "array_visitor_total_n1": dict(crate="zkchannels-crypto", what="[G;1] sequence visitor: value or error (no panic) for any announced length <= N+2 and any size hint; Ok iff exactly N elements", functions=["serde.<[G; N] as SerializeElement>::deserialize"], note="complete for code that stops at capacity: the first N+1 steps of any longer sequence are identical"),
     "array_visitor_total_n5": dict(crate="zkchannels-crypto", what="[G;5] sequence visitor: value or error (no panic) for any announced length <= N+2 and any size hint; Ok iff exactly N elements", functions=["serde.<[G; N] as SerializeElement>::deserialize"]),
     "boxed_array_visitor_total_n1": dict(crate="zkchannels-crypto", what="Box<[G;1]> codec: value or error for any announced length", functions=["serde.<Box<[G; N]> as SerializeElement>::deserialize"]),
